@@ -6,6 +6,7 @@ import dataclasses
 import datetime
 import decimal
 import io
+import math
 import re
 import sys
 import typing
@@ -277,6 +278,9 @@ def parse_date_time(date_time_str: str) -> XsdDateInformation | None:
     hour = _parse_integer(groups.get(_RegexKeys.HOUR))
     minute = _parse_integer(groups.get(_RegexKeys.MINUTE))
     second = _parse_float(groups.get(_RegexKeys.SECOND))
+    if second is not None and second >= MAX_SECOND:
+        # e.g. '59.999999999999999' is a valid second below 60 whose nearest float is 60.0
+        second = math.nextafter(MAX_SECOND, 0.0)
     return XsdDateInformation(
         year=year,
         month=month,
